@@ -121,6 +121,12 @@ def audit_sources():
                     if w in ("Variable", "Variables", "Hypothesis", "Hypotheses") and depth > 0:
                         continue
                     bad.append(f"{os.path.relpath(p, V)}:{ln}: {w}")
+                # the executable models and the extraction must not depend on proof files: the correspondence check
+                # has to keep running (and finding failing inputs) when a proof breaks
+                rel = os.path.relpath(p, COQ)
+                if rel.startswith(("Model" + os.sep, "Extract" + os.sep, "Spec" + os.sep, "Base" + os.sep)) and \
+                        re.search(r"\bProofs\.\w+", line):
+                    bad.append(f"{os.path.relpath(p, V)}:{ln}: a model file imports a proof file")
     return bad
 
 
